@@ -392,6 +392,7 @@ def run(ctx: Ctx):
     _cache_key_with_value(ctx, dist, lp, rel)
     _log_prob_input_contract(ctx, dist, lp, rel)
     _support_table(ctx, rel)
+    _walk_table(ctx)
     # every scoring call of the wrapper starts the model from a fresh copy of the initial state (siblings agree)
     lmc = [c for c in own_calls(lp.node) if u(c.func) == "self.random_walk.lm"]
     col.ob("G1", "S4", f"{rel}::SequentialLanguageModelDistribution.log_prob::lm(hist, initial_state.copy())",
@@ -876,6 +877,131 @@ def _support_table(ctx: Ctx, rel: str):
             f"sequences {rows}; by the definition (tokens up to the first eos in the vocabulary, and exactly max_iters long or ended by an eos within "
             f"max_iters steps along the LAST axis) it is {bad[3]}: paths the walk produces are reported outside the support (or foreign ones inside)") if bad else "",
            rel, f.line, sample=dict(rows=n))
+
+
+def _walk_table(ctx: Ctx):
+    """S1 by value: `RandomWalk.forward` with `random_walk_advance` is interpreted over exact values (sa/interp.py + sa/teval.py). The
+    language model is a leaf with threaded state (next-token scores depend on the whole history through it), `log_softmax` is taken as
+    the identity, and the sampler `torch.multinomial` is a leaf that follows a SCRIPT of tokens (a forbidden token - mass -inf - is
+    replaced by the only one allowed). For scripts over 2-3 tokens, eos unset / first / last, step limits 0-4, unbatched and batches of
+    2-3 walks that finish at different steps: every walk is the script up to and including its first eos (or the step limit), its
+    length counts that eos, and its reported log-probability is the model's chained score of exactly those tokens - nothing is added
+    after the walk has ended. False when outside the interpreted fragment."""
+    import numpy as np
+    from fractions import Fraction as Fr
+    from sa.interp import Interp
+    from sa.inteval import NotEvaluable
+    from sa.teval import frac_array
+    col, pkg = ctx.col, ctx.pkg
+    fwd = pkg.func(f"{MOD}::RandomWalk.forward")
+    adv = pkg.func(f"{MOD}::random_walk_advance")
+    rel = fwd.module.relname
+    methods = {st.name: st for st in fwd.cls.node.body if isinstance(st, ast.FunctionDef)}
+
+    def lm_step(t, h, tok, V):
+        h2 = (h * 3 + (tok + 1 if tok is not None else 0)) % 5
+        return [Fr(-(2 + (h2 * 7 + v * 3 + t) % 11), 9) for v in range(V)], h2
+
+    def walk(V, eos, T, script, batched):
+        N = len(script)
+        holder = {}
+
+        def lookup(c):
+            f = c.func
+            if isinstance(f, ast.Name) and f.id == "random_walk_advance":
+                return adv.node
+            if isinstance(f, ast.Attribute) and isinstance(f.value, ast.Name) and f.value.id == "self" and f.attr in methods and f.attr not in ("forward", "__init__", "reset_parameters"):
+                return methods[f.attr]
+            return None
+
+        def leaf(x, env):
+            it = holder["it"]
+            if isinstance(x, ast.Call):
+                cn = call_name(x)
+                if cn == "self.lm.update_input":
+                    return {"h": np.arange(N) % 3, "t": 0}
+                if cn == "self.lm.calc_idx_log_probs" and len(x.args) == 3:
+                    hist, prev = np.asarray(it.eval(x.args[0], env)), it.eval(x.args[1], env)
+                    t = int(np.asarray(it.eval(x.args[2], env)).reshape(-1)[0])
+                    out, nh = np.empty((N, V), dtype=object), np.zeros((N,), dtype=int)
+                    for n in range(N):
+                        sc, h2 = lm_step(t, int(prev["h"][n]), int(hist[t - 1, n]) if t > 0 else None, V)
+                        nh[n] = h2
+                        out[n, :] = sc
+                    return (out, {"h": nh})
+                if isinstance(x.func, ast.Attribute) and x.func.attr == "log_softmax":
+                    return it.eval(x.func.value, env)
+                if cn == "torch.multinomial" and x.args:
+                    src = x.args[0]
+                    if isinstance(src, ast.Call) and isinstance(src.func, ast.Attribute) and src.func.attr == "exp":
+                        lp = np.asarray(it.eval(src.func.value, env), dtype=object)
+                    else:
+                        raise NotEvaluable("the sampler's argument is not exp(log-probabilities)")
+                    step = holder["step"]
+                    holder["step"] = step + 1
+                    draws = []
+                    for n in range(N):
+                        v = script[n][step] if step < len(script[n]) else 0
+                        if lp[n, v] == -float("inf"):
+                            ok_ = [j for j in range(V) if lp[n, j] != -float("inf")]
+                            if len(ok_) != 1:
+                                raise NotEvaluable("a finished walk has several or no allowed tokens")
+                            v = ok_[0]
+                        draws.append([v])
+                    return frac_array(draws)
+                if cn == "dict" and not x.args and not x.keywords:
+                    return {}
+            if isinstance(x, ast.Attribute) and u(x) == "self.device_buffer.device":
+                return "<device>"
+            return None
+        it = Interp(leaf=leaf, lookup=lookup, tensors=True, max_steps=200000)
+        holder["it"], holder["step"] = it, 0
+        names = [p_.name for p_ in fwd.params[1:]]
+        env = dict(zip(names, (None, N if batched else None, T)))
+        env.update({"self.eos": eos, "self.lm.vocab_size": V})
+        return it.run(fwd.node, env)
+    bad, rows = None, 0
+    try:
+        for V in (2, 3):
+            for eos in (None, 0, V - 1):
+                for T in (0, 1, 2, 4):
+                    scripts = [([[1 % V, 0, (V - 1), 1 % V]], False), ([[0, 1 % V, 1 % V, 0], [V - 1, V - 1, 0, 0], [1 % V, 1 % V, 1 % V, 1 % V]], True),
+                               ([[V - 1, 0, 0, 0], [0, 0, 0, 0]], True)]
+                    for script, batched in scripts:
+                        kind, got = walk(V, eos, T, script, batched)
+                        rows += 1
+                        N = len(script)
+                        cfg = dict(vocab=V, eos=eos, max_iters=T, script=script)
+                        if kind != "return" or not isinstance(got, tuple) or len(got) != 3:
+                            bad = bad or (cfg, f"{kind}: {str(got)[:80]}")
+                            continue
+                        y, lens, lp = (np.asarray(g_, dtype=object) for g_ in got)
+                        if not batched:
+                            if (y.ndim, lens.ndim, lp.ndim) != (1, 0, 0):
+                                bad = bad or (cfg, f"an unbatched walk returns tensors with {y.ndim}, {lens.ndim}, {lp.ndim} axes")
+                                continue
+                            y, lens, lp = y[:, None], lens.reshape(1), lp.reshape(1)
+                        for n in range(N):
+                            want = []
+                            for v in script[n][:T]:
+                                want.append(v)
+                                if eos is not None and v == eos:
+                                    break
+                            h, tot, tok = n % 3, Fr(0), None
+                            for t_, v in enumerate(want):
+                                sc, h = lm_step(t_, h, tok, V)
+                                tot += sc[v]
+                                tok = v
+                            L = int(lens[n])
+                            seq = [int(y[i, n]) for i in range(min(L, y.shape[0]))]
+                            if (L, seq, lp[n]) != (len(want), want, tot) and bad is None:
+                                bad = (cfg, f"walk {n} returns the tokens {seq} (length {L}) at log-probability {lp[n]}; following the script it is {want} (length {len(want)}) "
+                                            f"with the model's chained score {tot}")
+    except NotEvaluable:
+        return False
+    col.count("walk_table_rows", rows)
+    col.ob("G12", "S1", f"{rel}::RandomWalk.forward::walk-table", bad is None, (f"{bad[0]}: {bad[1]}") if bad else "", rel, fwd.line, sample=dict(rows=rows))
+    return True
 
 
 def _mutants():
